@@ -28,6 +28,9 @@ CHECKS = {
     'C07': dict(engine='E1-kani', technique='bounded model checking (Kani/CBMC, CaDiCaL) of the generated clone/clone_from against a field-wise expected value',
                 text='For every derive request in the grammar CBMC decides that x.clone() keeps the variant and transforms each field exactly once by its own Clone or the method (bitwise under Copy without a method), and that after a.clone_from(&b) a equals the expected b.clone() for all ordered pairs incl. different variants; unions are bitwise.',
                 ref='DESIGN.md §4 C07'),
+    'C08': dict(engine='E1-kani', technique='bounded model checking (Kani/CBMC, CaDiCaL) of the generated default()/new() under a symbolic environment',
+                text='Every field Default and every user expression reads its own slot of an arbitrary 16-byte environment, so CBMC decides for all environments that default() is the designated struct / marked-or-only variant / marked-or-only union field with each field from its own source and that new() equals default(); the literal x type x spelling table is evaluated as closed terms (counted separately).',
+                ref='DESIGN.md §4 C08'),
     'C09': dict(engine='E1-kani', technique='bounded model checking (Kani/CBMC, CaDiCaL) of deref/deref_mut with pointer-identity assertions',
                 text='For every marker placement in the grammar CBMC decides that &*x has the address of the designated field (or its referent) for every variant and value, and that a write through &mut *x reaches the DerefMut-designated field and leaves every other field and the variant unchanged.',
                 ref='DESIGN.md §4 C09'),
@@ -42,7 +45,7 @@ NOT_APPLICABLE = {
     'C16': "the only varying input is std's per-process RandomState seed inside HashMap iteration; it cannot be made symbolic without executing the macro symbolically, which is unavailable here",
 }
 
-PENDING = {k: 'check not built yet at this commit (planned, see DESIGN.md §0); not claimed until it is' for k in ['C08','C11','C12','C14','C15','C17','C18','C19','C20']}
+PENDING = {k: 'check not built yet at this commit (planned, see DESIGN.md §0); not claimed until it is' for k in ['C11','C12','C14','C15','C17','C18','C19','C20']}
 
 
 def build():
